@@ -983,6 +983,62 @@ class Gen:
         assert ev_problem(p, M) and ev_problem(q, M)
         return p, M, q
 
+    # ---- (2e) LARGE problems: 110-150 variables, nearly all unconstrained, a handful of constraints between variables picked
+    #      at random and between pairs whose indices are digit-wise re-splittings of each other ((1,112) / (11,12)): caches
+    #      keyed on variable ids.  Returns (full problem, the constrained part for the reference procedure, permuted twin)
+    def large_n(self, numeric=False):
+        r = self.rng
+        n = r.randint(110, 150)
+        if numeric:
+            names = ["x%d" % i for i in range(n)]
+            decls = [('real', x) for x in names]
+            stmts = []
+            for _ in range(r.randint(2, 5)):
+                a, b = r.sample(range(n), 2)
+                if abs(a - b) < 60:
+                    b = (a + 60 + r.randint(0, 40)) % n
+                stmts.append(('c', ('cmp', r.choice(['le', 'lt', 'eq', 'ge']), ({names[a]: Fr(1), names[b]: Fr(-1)}, Fr(r.randint(-2, 2))))))
+            enums, classes = {}, []
+        else:
+            dom = r.randint(2, 4)
+            tname = r.choice(['Colour', 'Kobj'])
+            enums, classes = {tname: dom}, ([tname] if tname == 'Kobj' else [])
+            names = ["e%d" % i for i in range(n)]
+            decls = [('enum:' + tname, x) for x in names]
+            pairs = []
+            # pairs whose indices concatenate to the same digit string
+            for _ in range(40):
+                digits = "".join(r.choice("123456789") for _ in range(r.choice([4, 4, 5])))
+                cuts = [c for c in range(1, len(digits)) if int(digits[:c]) < int(digits[c:]) < n + 4]
+                if len(cuts) >= 2:
+                    c1, c2 = r.sample(cuts, 2)
+                    off = r.choice([0, 0, 1, 2, 3])          # the planner's ids may be shifted against the declaration indices
+                    cand = [(int(digits[:c1]) - off, int(digits[c1:]) - off), (int(digits[:c2]) - off, int(digits[c2:]) - off)]
+                    if all(0 <= a < n and 0 <= b < n and a != b for a, b in cand):
+                        pairs = cand
+                        break
+            k = r.randint(2, 6)
+            stmts = []
+            if pairs:
+                pol = r.choice([('eeq', 'ene'), ('ene', 'eeq'), ('eeq', 'eeq'), ('ene', 'ene')])
+                stmts = [('c', (pol[0], names[pairs[0][0]], names[pairs[0][1]])), ('c', (pol[1], names[pairs[1][0]], names[pairs[1][1]]))]
+            while len(stmts) < k:
+                a, b = r.sample(range(n), 2)
+                stmts.append(('c', (r.choice(['eeq', 'ene']), names[a], names[b])))
+            r.shuffle(stmts)
+        used = set()
+        for st in stmts:
+            f = st[1]
+            used |= set(f[2][0]) if f[0] == 'cmp' else {f[1], f[2]}
+        full = {'decls': decls, 'stmts': stmts, 'enums': enums, 'classes': classes}
+        small = {'decls': [d for d in decls if d[1] in used], 'stmts': stmts, 'enums': enums, 'classes': classes}
+        # twin: declarations permuted and renamed, so that every id shifts
+        ren = {x: "w%d" % i for i, x in enumerate(r.sample(names, n))}
+        twin = rename(full, ren)
+        twin['decls'] = sorted(twin['decls'], key=lambda d: int(d[1][1:]))
+        small_twin = rename(small, ren)
+        return full, small, twin, small_twin
+
     # ---- (3) equivalence classes ----
     def variants(self, p, k=3, force=()):
         """semantically equivalent rewritings of p: [(name, problem, style_of)]"""
